@@ -152,6 +152,21 @@ let err_text = function
 
 let res f = function Ok a -> f a | Err e -> err_text e
 
+(* C13: `conv FROM TO HEX` (FROM = none | MAJ.MIN, TO = MAJ.MIN) -> hex | !Err;
+   `v1only HEX` -> 1 | 0 *)
+let version_of_string (s : string) : n * n =
+  match String.index_opt s '.' with
+  | None -> failwith ("version " ^ s)
+  | Some i -> (n_of_dec (String.sub s 0 i), n_of_dec (String.sub s (i + 1) (String.length s - i - 1)))
+let run_conv (op : string) (arg : string) : string =
+  match op, String.split_on_char ' ' arg with
+  | "conv", [f; t; h] ->
+      if h = "" then "!Empty" else
+      let from = if f = "none" then None else Some (version_of_string f) in
+      res hex_of_bytes (convert_api from (version_of_string t) (bytes_of_hex h))
+  | "v1only", [h] -> if v1_only (bytes_of_hex h) then "1" else "0"
+  | _ -> "!DRIVER bad conv line"
+
 let run_line (line : string) : string =
   let sp = String.index_opt line ' ' in
   let op, arg = match sp with
@@ -166,6 +181,7 @@ let run_line (line : string) : string =
   | "skip" -> if arg = "" then "!Empty" else res dec_of_n (value_len (bytes_of_hex arg))
   | "split" -> if arg = "" then "!Empty" else res hex_of_bytes (de_as_serialized (bytes_of_hex arg))
   | "kind" -> if arg = "" then "!Empty" else res (fun k -> dec_of_n (kind_byte k)) (peek_kind (bytes_of_hex arg))
+  | "conv" | "v1only" -> run_conv op arg
   | _ -> "!UnknownOp " ^ op
 
 let () =
